@@ -16,17 +16,20 @@ def run_real(prog, clock, end=progmc.END):
     """execute prog on the real simulator; returns observation dict"""
     from pydsol.core.experiment import SingleReplication
     simc, T = progmc.time_types()[clock]
+    base = progmc.base_of(clock)
     M = progmc.model_class()
 
     def body(s):
         sim = simc("s")
-        m = M(sim, prog, T)
-        sim.initialize(m, SingleReplication("r", T(0), T(0), T(end)))
+        m = M(sim, prog, T, base=base)
+        sim.initialize(m, SingleReplication("r", base, T(0), T(end)))
         sim.start()
         s.wait_quiescent()
-        out = dict(trace=list(m.trace), clock=float(sim.simulator_time),
+        out = dict(trace=list(m.trace),
+                   clock=float(sim.simulator_time - base),
                    state=sim.run_state.name, rstate=sim.replication_state.name,
                    ill=list(m.ill), cancels=list(m.cancels),
+                   runaway=m.runaway,
                    left=sim.eventlist().size())
         sim.cleanup()
         s.wait_quiescent()
@@ -53,6 +56,8 @@ def judge(prog, clock, end=progmc.END):
     ref = progmc.Ref(prog, end=end)
     exp = ref.full_trace()
     bad = []
+    if got.get("runaway"):
+        bad.append(("runaway-event-loop", got["trace"][:12]))
     if got["trace"] != exp:
         bad.append(("trace", {"got": got["trace"], "expected": exp}))
     if got["clock"] != float(end):
@@ -171,6 +176,10 @@ def run(ctx):
     rot = 0
     tasks = [(c, N, rot, i, nchunks, quick)
              for c in ("float", "int", "duration") for i in range(nchunks)]
+    # replications that do not start at zero (incl. an int clock beyond 2^53)
+    tasks += [(c, 3 if not quick else 2, rot, i, 4, True)
+              for c in ("int@2^60", "float@100", "float@-10", "duration@1h")
+              for i in range(4)]
     if not quick:
         # the full illegal-request table at N=3 as well
         tasks += [(c, 3, 0, i, common.NCPU, True)
